@@ -1427,6 +1427,11 @@ class Prov:
                     for o in self.of_local(fn, pl["l"], fields_of(pl["p"]), depth, _seen)}
         if k == "agg":
             out = set()
+            if "adt" in rv and rv.get("variant") in ("Some", "Ok", "Err", "Continue", "Break", "Ready") and len(rv["ops"]) == 1 \
+                    and path and not path[0].startswith("@") and path[0] != ".0":
+                # payload selectors are dropped when a path is read (fields_of), so they are transparent when it is built:
+                # `Some(fields)?.trace_id` is `fields.trace_id`
+                return self._rec(fn, rv["ops"][0], path, depth, _seen)
             if "fields" in rv and path and not rv.get("tuple"):
                 # pick the field the path selects
                 want = path[0]
